@@ -13,7 +13,7 @@ import os
 import pickle
 import re
 import struct
-from typing import Dict, List, Optional
+from typing import Callable, Dict, List, Optional
 
 from jsonargparse import ActionConfigFile, ArgumentParser, Namespace, lazy_instance
 
@@ -37,6 +37,7 @@ def make_parser(variant, eoe, workdir):
     p.add_argument("--odc", type=Optional[zoo.Point])
     p.add_class_arguments(zoo.SubB, "grp")
     p.add_class_arguments(zoo.WithOptDC, "wod")
+    p.add_argument("--cb", type=Callable[[int], zoo.Base])
     if variant["links"]:
         p.add_argument("--src", type=int, default=2)
         p.add_argument("--dst", type=int)
@@ -74,7 +75,7 @@ BAD_ARGV = [
     ["--print_config", "--i=x"], ["--print_config", "--model=BadDefault"], ["--model=SubB", "--cfg", '{"model": {"init_args": {"zz": 1}}}'], ["--dc.inner.color=nope"], ["--l+=x"], ["--d.k=x"],
     ["--model=SubB", "--cfg", "{"], ["--opt=SubA", "--cfg", '{"zz": 1}'], ["--model_ema=SubA", "--model_ema.zz=1"], ["--odc.x=bad"], ["--model=SubReq"],
 ]
-EXIT0_ARGV = [["--help"], ["--print_config"], ["--print_config=skip_default"], ["--model.help"], ["--model.help", "SubB"], ["--opt.help=SubA"], ["--print_config", "--model=SubB"], ["--print_config=comments"]]
+EXIT0_ARGV = [["--cb.help=SubA"], ["--cb.help", "SubB"], ["--help"], ["--print_config"], ["--print_config=skip_default"], ["--model.help"], ["--model.help", "SubB"], ["--opt.help=SubA"], ["--print_config", "--model=SubB"], ["--print_config=comments"]]
 SUB_ARGV = [["s1"], ["s1", "--o=5"], ["s2", "--q=z"], ["s1", "--m=SubB"], ["s1", "--print_config"], ["s1", "--o=x"], ["s1", "--print_config", "--o=x"], ["s1", "--help"], ["s1", "--cfg", '{"o": 7}'], ["s1", "--m=BadDefault"], ["--i=2", "s2"]]
 OBJECTS = [
     {"i": 4}, {"model": {"init_args": {"a": 8}}}, {"opt": {"init_args": {"a": 2}}}, {"model": {"class_path": "vf.fixtures.zoo.SubB", "init_args": {"c": 0.5}}}, {"dc": {"count": 7}}, {"odc": {"x": 5}},
